@@ -190,6 +190,30 @@ where
         lin_calls.push(apply::<R, _>(&mut lin, e));
         sc_calls.push(apply::<R, _>(&mut sc, e));
     }
+    // the same history once more, using on_invret wherever an invocation is immediately followed by its return
+    let mut lin2 = LinearizabilityTester::<u8, R>::new(R::init());
+    let mut sc2 = SequentialConsistencyTester::<u8, R>::new(R::init());
+    let mut lin2_calls = vec![];
+    let mut sc2_calls = vec![];
+    let mut i = 0;
+    while i < h.len() {
+        let e = &h[i];
+        let paired = i + 1 < h.len() && e["k"] == "inv" && h[i + 1]["k"] == "ret" && h[i + 1]["t"] == e["t"];
+        if paired {
+            let th = e["t"].as_u64().unwrap() as u8;
+            let a = lin2.on_invret(th, R::op(&e["x"]).expect("op"), R::ret(&h[i + 1]["x"]).expect("ret")).is_ok();
+            let b = sc2.on_invret(th, R::op(&e["x"]).expect("op"), R::ret(&h[i + 1]["x"]).expect("ret")).is_ok();
+            lin2_calls.push(a);
+            lin2_calls.push(a);
+            sc2_calls.push(b);
+            sc2_calls.push(b);
+            i += 2;
+        } else {
+            lin2_calls.push(apply::<R, _>(&mut lin2, e));
+            sc2_calls.push(apply::<R, _>(&mut sc2, e));
+            i += 1;
+        }
+    }
     let (lin_has, lin_ser) = ser_json::<R>(lin.serialized_history());
     let (sc_has, sc_ser) = ser_json::<R>(sc.serialized_history());
     // value semantics: extend a CLONE of the parent tester by the last event; the parent must not change
@@ -219,6 +243,8 @@ where
         "sc_stream": crate::actors::stream_of(&sc), "sc_key": sc_key,
         "lin": {"calls": lin_calls, "consistent": lin.is_consistent(), "has_ser": lin_has, "ser": lin_ser, "len": lin.len()},
         "sc": {"calls": sc_calls, "consistent": sc.is_consistent(), "has_ser": sc_has, "ser": sc_ser, "len": sc.len()},
+        "lin2": {"calls": lin2_calls, "consistent": lin2.is_consistent(), "eq": lin2 == lin},
+        "sc2": {"calls": sc2_calls, "consistent": sc2.is_consistent(), "eq": sc2 == sc},
         "parent_before": pb, "parent_after": pa, "clone_eq_replay": peq
     })
 }
